@@ -44,6 +44,8 @@ class Conc(object):
             return f
         t = self.types[(self.rot * 6 + j) % len(self.types)]
         fmts = self.fmap[t] or self.allfmt
+        if self.rot % 2:
+            fmts = self.allfmt          # type and format are two enumerations: the usual pairing is a default, not a rule
         return {"path": self.paths[spec.get("pathof", n)], "mtime": 1432300000 + j, "size": 1234 + j if spec["size"] == "small" else (1 << (33 if self.rot % 3 else 62)) + j,
                 "volume_id": None if spec["volume_id"] == "null" else "Vol %s-22" % n, "type": t, "format": fmts[(self.rot + j) % len(fmts)],
                 "arch": [self.arch["a1"], self.arch["a2"], "src"][j % 3], "disc_number": spec["disc_number"], "disc_count": spec.get("disc_count", 3),
@@ -186,6 +188,23 @@ def evaluate(case):
             if (rec["mtime"], rec["bootable"], rec["checksums"]) != (img.mtime, img.bootable, img.checksums):
                 fails.append("%s: %s manifest edited (mtime, bootable, checksums of %s) and written again still shows the old values: %s"
                              % (what, name, img.path, {k: rec[k] for k in ("mtime", "bootable", "checksums")}))
+            # ... and an edit that breaks a rule: whatever the library then agrees to write must still be read back as written
+            keep = (img.format, img.volume_id)
+            img.format, img.volume_id = img.format.upper(), ""
+            try:
+                t_bad = man.dumps()
+            except (ValueError, TypeError):
+                t_bad = None
+            if t_bad is not None:
+                try:
+                    m4 = Images()
+                    m4.loads(t_bad)
+                    if m4.dumps() != t_bad:
+                        fails.append("%s: %s manifest edited (format %r, volume id '') was written and is read back differently" % (what, name, img.format))
+                except Exception as exc:
+                    fails.append("%s: %s manifest edited (format %r, volume id '') was written but cannot be read back: %s: %s"
+                                 % (what, name, img.format, type(exc).__name__, exc))
+            img.format, img.volume_id = keep
     return fails[:6]
 
 
